@@ -66,8 +66,18 @@ def generate(seed, tier):
         block['eqs'].append(['t', '5.0'])
     elif ta == 'user_k':
         block['eqs'].append(['t', '2010.0 + 0.25*k'])
-    return {'kind': 'GEN', 'bundled': None, 'block': block, 'faults': faults, 'time_axis': ta,
+    case = {'kind': 'GEN', 'bundled': None, 'block': block, 'faults': faults, 'time_axis': ta,
             'knobs': {'reduction': S['knobs'].random() < 0.25}}
+    if S['swarm'].random() < 0.2:
+        # the generator object has a history: another block was parsed and generated with it before
+        pre, _m = gen_block(S['prelude'], 'contractive', T=S['prelude'].randint(1, 4), n=S['prelude'].randint(1, 4),
+                            rich=False, allow_user_t=False)
+        for e in pre['exo']:
+            val = eval(e[1], {'__builtins__': {}}, {})
+            if isinstance(val, float):
+                e[1] = '[%s,] * %d' % (repr(val), pre['maxtime'] + 1)
+        case['prelude'] = pre
+    return case
 
 
 def simplify(case):
@@ -82,6 +92,10 @@ def simplify(case):
     if case['block'].get('err_tol') is not None:
         c = core.deep_copy(case)
         c['block']['err_tol'] = None
+        yield c
+    if case.get('prelude') is not None:
+        c = core.deep_copy(case)
+        c['prelude'] = None
         yield c
 
 
@@ -107,7 +121,14 @@ def execute(case):
                     text_in = model_list[case['bundled']]
                 else:
                     text_in = render(block)
-                    g = IterativeMachineGenerator(text_in, run_equation_reduction=bool((case.get('knobs') or {}).get('reduction')))
+                    red = bool((case.get('knobs') or {}).get('reduction'))
+                    if case.get('prelude') is not None:
+                        g = IterativeMachineGenerator(render(case['prelude']), run_equation_reduction=red)
+                        g.main('gen/previous.py')
+                        g.ParseString(text_in)
+                        stats['probes']['generator_reused'] = 1
+                    else:
+                        g = IterativeMachineGenerator(text_in, run_equation_reduction=red)
                 g.main(path)
         except Exception as ex:   # noqa
             gen_outcome = type(ex).__name__
